@@ -504,11 +504,22 @@ class FilteredArr:
 
     def indicator(self):
         """SymArr over the positions of L: elem (as 0/1 or integer) where cond holds, 0 elsewhere"""
+        probe_kind = {}
+
         def f(i):
             v = self.elem(i)
+            if isinstance(v, XR):
+                return xite(self.cond(i), v, XR.const(0, npk=True))
             t = iite(bterm(v), 1, 0) if isinstance(v, (bool, SBool)) else v
             return mkint(iite(self.cond(i), t, 0))
-        return SymArr(self.length, f, "int")
+        pi = z3.Int(ctx().fresh("fprobe"))
+        with ctx().scope():
+            ctx().assume(z3.And(pi >= 0, pi < zi(self.length)))
+            try:
+                kind = "xr" if isinstance(self.elem(pi), XR) else "int"
+            except PathInfeasible:
+                kind = "int"
+        return SymArr(self.length, f, kind)
 
     def py_len(self, I):
         arr = SymArr(self.length, lambda i: mkint(iite(self.cond(i), 1, 0)), "int")
